@@ -3,6 +3,8 @@ import QipVerif.Lemmas.ZyzCphase
 import QipVerif.Lemmas.ZyzQftList
 import QipVerif.Lemmas.ZyzQftSem
 import QipVerif.Lemmas.ZyzQftSmall
+import QipVerif.Lemmas.ZyzQftCnot
+import QipVerif.Lemmas.ZyzQftEnc
 /-!
 # C17 — single-qubit decompositions and QFT circuits are exact
 
@@ -15,7 +17,10 @@ Property theorems only.
 * `Zyz.cphaseToCnot λ` is the list `_cphase_to_cnot` returns (regenerated template + ZYZ_PauliX model).
 * `Qft.gateSequence / Qft.qftSteps` are the gate / step lists of `qft_gate_sequence / qft_steps`.
 
-**Not proved (partial):** that the circuit multiplies to the DFT matrix for general `N`.
+* `QftDen.circDenN N gs` is the operator of a gate list of the model on an `N`-qubit register
+  (`St N = Fin N → Fin 2`, qubit 0 = most significant bit): the gate matrices placed with `Tg.embed`
+  (C08's specification) and multiplied in circuit order; `QftDen.dftMat N` is
+  `F[y,x] = e^{2πi·val y·val x/2^N}/√(2^N)` with `val` = the package's big-endian flat index.
 -/
 namespace QipVerif.C17
 open Matrix Complex
@@ -135,5 +140,71 @@ theorem qft_eq_dft_le4 :
 example : (match Qft.gateSequence 2 false false with
     | some gs => QftSmall.run 2 gs (QftSmall.basis 2 1) == some (QftSmall.dftCol 2 1)
     | none => false) = false := by decide +kernel
+
+/-! ## (6) QFT = DFT for EVERY N ≥ 1, at operator level (ℂ-matrices on the N-qubit register) -/
+
+open QipVerif.QftDen in
+/-- **QFT = DFT.** For every `N ≥ 1` the gates of `qft_gate_sequence(N, swapping=True, to_cnot=False)`,
+placed on `N` qubits and multiplied in circuit order, give exactly the DFT matrix
+`F[y,x] = ω^{y·x}/√(2^N)`, `ω = e^{2πi/2^N}` (indices read big-endian). -/
+theorem qft_eq_dft (N : ℕ) (hN : 1 ≤ N) :
+    (Qft.gateSequence N true false).bind (circDenN N) = some (dftMat N) :=
+  qft_native_den N hN
+
+-- non-vacuity: N = 3 meets the hypothesis and the circuit has 7 gates
+example : (1 ≤ 3) ∧ (Qft.gateSequence 3 true false).map List.length = some 7 := by decide
+
+open QipVerif.QftDen in
+/-- the index of `dftMat` is the package's flat (big-endian) index `stEquiv` of a basis state -/
+theorem dft_index_big_endian {k : ℕ} (x : St k) : val x = (stEquiv k x).val := val_eq_stEquiv x
+
+open QipVerif.QftDen in
+/-- Without the final swaps the circuit is the DFT with bit-reversed output index. -/
+theorem qft_noswap_eq_dft_bitrev (N : ℕ) (hN : 1 ≤ N) :
+    (Qft.gateSequence N false false).bind (circDenN N) =
+      some (fun y x => dftMat N (y ∘ (Fin.rev : Fin N → Fin N)) x) :=
+  qft_native_noswap_den N hN
+
+open QipVerif.QftDen in
+/-- **Circuit = steps, operator level**: for every `N` and both values of `swapping` the native circuit
+and the product of the operators of `qft_steps` are the same matrix (both undefined exactly for N < 1). -/
+theorem qft_circuit_den_eq_steps (N : ℕ) (sw : Bool) :
+    (Qft.gateSequence N sw false).bind (circDenN N) = (Qft.qftSteps N sw).bind (stepsDen N) :=
+  circuit_den_eq_steps N sw
+
+open QipVerif.QftDen in
+/-- With `to_cnot=True` the circuit is the product of the step operators times the recorded global
+phase `e^{i·Σ λ/2}` (sum over the controlled-phase steps, `λ = π/2^k`). -/
+theorem qft_cnot_den_eq_steps (N : ℕ) (sw : Bool) (ss : List Qft.Step) (M : Matrix (St N) (St N) ℂ)
+    (h1 : Qft.qftSteps N sw = some ss) (h2 : stepsDen N ss = some M) :
+    (Qft.gateSequence N sw true).bind (circDenN N) = some (cexp (I * (stepsPhase ss : ℂ)) • M) :=
+  circuit_cnot_den_eq_steps N sw ss M h1 h2
+
+open QipVerif.QftDen in
+/-- the step operators of `qft_steps(N, swapping=True)` multiply to the DFT matrix -/
+theorem qft_steps_eq_dft (N : ℕ) (hN : 1 ≤ N) : (Qft.qftSteps N true).bind (stepsDen N) = some (dftMat N) :=
+  steps_den_eq_dft N hN
+
+open QipVerif.QftDen in
+/-- **QFT with CNOT expansion = DFT up to the recorded global phase**, every `N ≥ 1`:
+the circuit of `qft_gate_sequence(N, True, to_cnot=True)` (GLOBALPHASE gates included) is
+`e^{iφ}·DFT` with `φ = Σ λ/2` over the controlled-phase steps. -/
+theorem qft_eq_dft_cnot (N : ℕ) (hN : 1 ≤ N) :
+    ∃ ss, Qft.qftSteps N true = some ss ∧
+      (Qft.gateSequence N true true).bind (circDenN N) = some (cexp (I * (stepsPhase ss : ℂ)) • dftMat N) :=
+  qft_cnot_den N hN
+
+open QipVerif.QftDen in
+/-- the CNOT expansion of one controlled phase, placed on any two distinct qubits of any register -/
+theorem cnot_expansion_on_register {N c t : ℕ} (hc : c < N) (ht : t < N) (hne : c ≠ t) (k : ℕ) :
+    circDenN N (Qft.cphaseToCnot c t k) =
+      some (cexp (I * ((angVal ⟨1, k⟩ / 2 : ℝ) : ℂ)) •
+        CPq ⟨c, hc⟩ ⟨t, ht⟩ (fun e => hne (Fin.mk.inj e)) (angVal ⟨1, k⟩)) :=
+  cnotExp_den hc ht hne k
+
+open QipVerif.QftDen in
+/-- amplitudes after `m ≤ N` stages (the stage lemma behind `qft_eq_dft`) -/
+theorem qft_stage_amplitudes (N m : ℕ) (hm : m ≤ N) : circDenN N (Qft.outer false m) = some (W N m) :=
+  outer_den m hm
 
 end QipVerif.C17
